@@ -676,7 +676,8 @@ class Sim(object):
             self.jobs_since_fault += 1
             if self.jobs_since_fault == 2:
                 self.fault_then_jobs += 1
-        self.log.append(['RUN', i, R, 'ok' if out.get('ok') else out.get('exception')])
+        self.log.append(['RUN', i, R, 'ok' if out.get('ok') else out.get('exception'),
+                         core.hexdigest([out.get('fs', {}).get('log'), out.get('result')])])
         # I1 never blocks
         if not out.get('ok'):
             tb = out.get('traceback', '')
